@@ -1,0 +1,42 @@
+//go:build verif
+
+// Contracts for the verifier in /verif (comment-only file; contributes no declarations).
+package discovery
+
+// C15: merging URLs under an inferred path parameter re-keys the statistics; the totals are preserved.
+// URL normalisation (the trie with inferred path parameters) is TRUSTED to touch nothing but the trie and may answer
+// anything: conservation must hold whatever keys it produces, collisions included.
+//@ extern common.NormalizeTree
+//@   modifies nothing
+//@ extern common.NormalizeURL
+//@   modifies nothing
+
+// Ghost accounting. cvSrc: requests of the source entries visited so far. cvDst: what the visits added to the result's
+// counts, computed from the result map itself - the count now stored under the visited key minus the count stored there
+// before (0 if absent); the [only-its-key] hint proves that a visit changes no other entry, so cvDst IS the sum of the
+// result's counts. cvPrevD / cvPrevV: domain and values of the result map at the end of the previous visit.
+//@ ghost var cvSrc int
+//@ ghost var cvDst int
+//@ ghost var cvPrevD gmap[sharedDiscovery.Endpoint]bool
+//@ ghost var cvPrevV gmap[sharedDiscovery.Endpoint]sharedDiscovery.EndpointAgg
+
+//@ func ConvergeAggregation
+//@   prop C15
+//@   requires forall(k, sharedDiscovery.Endpoint, !cvPrevD[k])
+//@   requires forall(k, sharedDiscovery.Endpoint, in(k, aggregation.Endpoints) ==> aggregation.Endpoints[k].Count >= 0 && (aggregation.Endpoints[k].StatusCodes == nil || allocated(aggregation.Endpoints[k].StatusCodes)))
+//@   requires (aggregation.Endpoints == nil || allocated(aggregation.Endpoints)) && (aggregation.Consumers == nil || allocated(aggregation.Consumers))
+//@   requires forall(c, string, in(c, aggregation.Consumers) ==> aggregation.Consumers[c] == nil || allocated(aggregation.Consumers[c]))
+//@   requires forall(c, string, in(c, aggregation.Consumers) ==> forall(k, sharedDiscovery.Endpoint, in(k, aggregation.Consumers[c]) ==> aggregation.Consumers[c][k].Count >= 0 && (aggregation.Consumers[c][k].StatusCodes == nil || allocated(aggregation.Consumers[c][k].StatusCodes))))
+//@   modifies heap, cvSrc, cvDst, cvPrevD, cvPrevV
+//@   allocates map
+//@   on entry do cvSrc = 0; cvDst = 0
+//@   loop 2 modifies mapof(endpointsAgg), cvSrc, cvDst, cvPrevD, cvPrevV
+//@   loop 2 hint[only-its-key] forall(k, sharedDiscovery.Endpoint, k != normEndpoint ==> (in(k, endpointsAgg) <==> cvPrevD[k]) && (in(k, endpointsAgg) ==> endpointsAgg[k] == cvPrevV[k]))
+//@   loop 2 do cvDst = cvDst + endpointsAgg[normEndpoint].Count - ite(cvPrevD[normEndpoint], cvPrevV[normEndpoint].Count, 0); cvSrc = cvSrc + agg.Count; cvPrevD = dom(endpointsAgg); cvPrevV = vals(endpointsAgg)
+//@   loop 2 invariant[snapshot] endpointsAgg != nil && forall(k, sharedDiscovery.Endpoint, cvPrevD[k] <==> in(k, endpointsAgg)) && forall(k, sharedDiscovery.Endpoint, in(k, endpointsAgg) ==> cvPrevV[k] == endpointsAgg[k])
+//@   loop 2 invariant[counts-non-negative] forall(k, sharedDiscovery.Endpoint, in(k, endpointsAgg) ==> endpointsAgg[k].Count >= 0 && (endpointsAgg[k].StatusCodes == nil || allocated(endpointsAgg[k].StatusCodes)))
+//@   loop 2 invariant[requests-conserved] cvDst == cvSrc
+//@   loop 3 invariant[sources-ok] (aggregation.Consumers == nil || allocated(aggregation.Consumers)) && consumerAgg != nil && consumerAgg != aggregation.Consumers && !allocated_at_entry(consumerAgg) && forall(c, string, in(c, aggregation.Consumers) ==> (aggregation.Consumers[c] == nil || allocated_at_entry(aggregation.Consumers[c])) && forall(k, sharedDiscovery.Endpoint, in(k, aggregation.Consumers[c]) ==> aggregation.Consumers[c][k].Count >= 0 && (aggregation.Consumers[c][k].StatusCodes == nil || allocated(aggregation.Consumers[c][k].StatusCodes))))
+//@   loop 4 invariant[source-ok] (mapping == nil || allocated_at_entry(mapping)) && !allocated_at_entry(normMapping) && forall(k, sharedDiscovery.Endpoint, in(k, mapping) ==> mapping[k].Count >= 0 && (mapping[k].StatusCodes == nil || allocated(mapping[k].StatusCodes)))
+//@   loop 4 invariant[counts-non-negative] normMapping != nil && forall(k, sharedDiscovery.Endpoint, in(k, normMapping) ==> normMapping[k].Count >= 0 && (normMapping[k].StatusCodes == nil || allocated(normMapping[k].StatusCodes)))
+//@   ensures[requests-conserved] result1 == nil && convergenceOccurred ==> cvDst == cvSrc
